@@ -138,6 +138,7 @@ def solve_sat(
 
     learned = []
     lbd_scores = []
+    n_blocking = 0  # blocking clauses in `learned` (kept for good, not counted by reduce_db)
 
     # VSIDS: negative activity for max-heap behavior
     activity = [0.0] * (n_vars + 1)
@@ -190,9 +191,10 @@ def solve_sat(
 
     def unassign_to(level):
         nonlocal prop_head
-        while len(trail_lim) > level:
-            trail_lim.pop()
-        target = trail_lim[-1] if trail_lim else 0
+        if len(trail_lim) <= level:
+            return
+        target = trail_lim[level]
+        del trail_lim[level:]
         while len(trail) > target:
             var = trail.pop()
             phase[var] = vals[var] == 1
@@ -360,7 +362,7 @@ def solve_sat(
 
     def reduce_db():
         nonlocal learned, lbd_scores
-        if len(learned) < 2000:
+        if len(learned) - n_blocking < 2000:
             return
 
         indexed = sorted(enumerate(learned), key=lambda x: (lbd_scores[x[0]], len(x[1])))
@@ -398,9 +400,11 @@ def solve_sat(
             add_watch(clause[0], i)
             add_watch(clause[1], i)
 
-    for var, val in find_pure_literals():
-        if vals[var] == UNDEF:
-            assign(var, val, -1)
+    # Fixing pure literals keeps satisfiability but not the set of models: only when one model is wanted
+    if solution_limit <= 1:
+        for var, val in find_pure_literals():
+            if vals[var] == UNDEF:
+                assign(var, val, -1)
 
     for lit, idx in unit_clauses:
         var = lit_var(lit)
@@ -490,19 +494,29 @@ def solve_sat(
                     return Result(sol, len(sol), decisions, propagations)
                 return Result(sol, len(sol), decisions, propagations, solutions=tuple(all_solutions))
 
-            blocking = [(-v if vals[v] == 1 else v) for v in range(1, n_vars + 1) if vals[v] != UNDEF]
+            # Level-0 literals are fixed for good, so the blocking clause only needs the others
+            # (all of them are unassigned again after the restart below, hence watchable).
+            blocking = [(-v if vals[v] == 1 else v) for v in range(1, n_vars + 1) if levels[v] > 0]
+            if not blocking:
+                return Result(
+                    all_solutions[0], len(all_solutions[0]), decisions, propagations, solutions=tuple(all_solutions)
+                )
             clause_idx = len(clauses) + len(learned)
             learned.append(blocking)
-            lbd_scores.append(n_vars)
-
-            if len(blocking) >= 2:
-                add_watch(blocking[0], clause_idx)
-                add_watch(blocking[1], clause_idx)
-            elif len(blocking) == 1:
-                add_watch(blocking[0], clause_idx)
+            lbd_scores.append(0)  # never dropped by reduce_db
+            n_blocking += 1
 
             unassign_to(0)
             dec_level = 0
+
+            if len(blocking) == 1:
+                assign(lit_var(blocking[0]), blocking[0] > 0, clause_idx)
+            elif len(blocking) == 2:
+                big.add(blocking[0], blocking[1], clause_idx)
+            else:
+                add_watch(blocking[0], clause_idx)
+                add_watch(blocking[1], clause_idx)
+
             conflict = propagate()
             continue
 
